@@ -50,12 +50,16 @@ def roland_payload():
                4: {"name": "TOP", "chain": [12, 10, 11], "cluster_top": 1, "points": [3, 3, 9000, 3, 9000], "mode": 2, "seq": 5},
                # two samples living in ONE fragmented chain (same first cluster), told apart by their leading-cluster offset
                5: {"name": "HALFA", "chain": [13, 16, 14, 17], "cluster_top": 0, "points": [0, 0, 9000, 0, 9000], "mode": 2, "seq": 6},
-               6: {"name": "HALFB", "chain": [13, 16, 14, 17], "cluster_top": 2, "points": [1, 1, 9001, 1, 9001], "mode": 2, "seq": 6}}
+               6: {"name": "HALFB", "chain": [13, 16, 14, 17], "cluster_top": 2, "points": [1, 1, 9001, 1, 9001], "mode": 2, "seq": 6},
+               # a second reverse-mode sample and a reverse-mode L/R pair (two reversed views alive at the same time)
+               7: {"name": "REV2", "chain": [19, 18], "points": [2, 2, 7001, 2, 7001], "mode": 6, "seq": 7},
+               8: {"name": "RV -L", "chain": [20, 21], "points": [0, 0, 8999, 0, 8999], "mode": 5, "seq": 8},
+               9: {"name": "RV -R", "chain": [23, 22], "points": [0, 0, 8999, 0, 8999], "mode": 5, "seq": 9}}
     model = {"volumes": [{"name": "VOL", "perfs": [0, 1]}],
              "performances": {0: {"name": "PERF0", "patches": [0]}, 1: {"name": "PERF1", "patches": [1]}},
              "patches": {0: {"name": "PATCH0", "partials": [0, 2]}, 1: {"name": "PATCH1", "partials": [1]}},
              "partials": {0: {"name": "PART0", "samples": [0, 1, 3, 4]}, 1: {"name": "PART1", "samples": [2, 4, 6]},
-                          2: {"name": "PART2", "samples": [5]}},   # the two halves are reached through different performances
+                          2: {"name": "PART2", "samples": [5, 7, 8, 9]}},   # the two halves are reached through different performances
              "samples": samples}
     return R.build_roland(model)[0]
 
@@ -233,6 +237,12 @@ def configs(quick):
     out.append({"name": "roland:big-blocks", "kind": "roland", "parts": [
         P(("VOL", "PERF0", "HALFA"), ("seek", 10), ("read", 30000), ("read", 8192)), P(("VOL", "PERF0", "CONT"), ("read", 20000), ("read", 4096)),
         P(("VOL", "PERF0", "REV"), ("read", 6000), ("read", 4096))]})
+    out.append({"name": "roland:two-reversed", "kind": "roland", "parts": [
+        P(("VOL", "PERF0", "REV"), ("read", 4096), ("read", 4096), ("read", 4096)), P(("VOL", "PERF0", "REV2"), ("read", 4096), ("read", 2), ("read", 4096)),
+        P(("VOL", "PERF0", "FWD"), ("read", 4096))]})
+    out.append({"name": "roland:reversed-stereo+stream", "kind": "roland", "parts": [
+        {"path": ["VOL", "PERF0", "RV -L"], "path2": ["VOL", "PERF0", "RV -R"], "ops": [["next"]] * 5, "stepwise": True},
+        P(("VOL", "PERF0", "REV"), ("read", 4096), ("read", 4096))]})
     out.append({"name": "roland:2x3+dir", "kind": "roland", "parts": [
         P(R0, ("read", 4096), ("read", CL - 1), ("read", 4096)), P(R1, ("read", 4096), ("read", 4096), ("read", CL + 1)),
         {"path": [], "ops": [["ls", "VOL/PERF1"]], "stepwise": True}]})
@@ -334,7 +344,7 @@ class Check(CheckBase):
     title = "Sample streams sharing one image file handle do not disturb one another"
     rule = ("per configuration (AKAI raw and inside MODE1/2352: two files of one partition, one fragmented, one file of a "
             "second partition, an L/R pair through the transcoder, a three-sector pair with a contiguous left and a fragmented right half, lazy directory listings; Roland: forward + reverse-mode "
-            "sample + listing of another performance, a shared sample with a leading-cluster offset, two samples living in one fragmented chain; CDDA: three tracks): ALL interleavings of the participants' call programs "
+            "sample + listing of another performance, a shared sample with a leading-cluster offset, two samples living in one fragmented chain, two reverse-mode samples and a reverse-mode L/R pair; CDDA: three tracks): ALL interleavings of the participants' call programs "
             "(block reads of 1, 2, 4096, sector-1, sector+1 bytes and of 6146..30000 bytes over files of five sectors / four clusters, sector-aligned reads of a contiguous file that end "
             "exactly on a sector boundary, read-to-end requests, absolute seeks, ls of unrealised directories, transcoder "
             "steps) on one fresh image object per schedule; thorough adds 3x3-step programs over all 25 block-size pairs. "
